@@ -15,7 +15,7 @@ Ltac rconsts :=
          GenConsts.RB_TAIL_POSITION_OFFSET, GenConsts.RB_HEAD_CACHE_POSITION_OFFSET, GenConsts.RB_HEAD_POSITION_OFFSET,
          GenConsts.RB_CORRELATION_COUNTER_OFFSET, GenConsts.RB_CONSUMER_HEARTBEAT_OFFSET, GenConsts.CMD_Padding in *.
 
-Ltac rauto := rconsts; srcT_auto.
+Ltac rauto := rconsts; first [ solve [srcT_auto] | solve [src_robust] ].
 
 (* ---- record descriptor ---- *)
 Lemma src_rb_length_offset_eq m o : src_rb_length_offset m o = Ok o.
@@ -31,7 +31,7 @@ Proof. apply Z.mod_pos_bound. reflexivity. Qed.
 (* make_header packs the low 32 bits of the type over the low 32 bits of the length *)
 Lemma src_rb_make_header_eq m len ty : src_rb_make_header m len ty = Ok (make_header len ty).
 Proof. unfold src_rb_make_header, make_header, wrapu32. srcT_norm.
-  rewrite pack64 by apply mod32_range. reflexivity. Qed.
+  first [ rewrite pack64 by apply mod32_range | rewrite Z.lor_comm, pack64 by apply mod32_range ]. reflexivity. Qed.
 
 Lemma src_rb_record_length_eq m h : src_rb_record_length m h = Ok (wrap32 (h mod two32)).
 Proof. unfold src_rb_record_length. srcT_norm. reflexivity. Qed.
@@ -71,12 +71,12 @@ Definition ok_res (r : outcome sres) : bool := match r with Ok (ROk _) => true |
 Lemma src_rb_check_msg_type_id_eq m t :
   src_rb_check_msg_type_id m t =
   Ok (if t <? 1 then RErr "RingBufferError::NonPositiveMessageTypeId" [t] else ROk 0).
-Proof. unfold src_rb_check_msg_type_id. destruct (t <? 1); reflexivity. Qed.
+Proof. unfold src_rb_check_msg_type_id. src_robust. Qed.
 
 Lemma src_rb_check_msg_length_eq m maxl len :
   src_rb_check_msg_length m maxl len =
   Ok (if len >? maxl then RErr "RingBufferError::MessageTooLong" [maxl; len] else ROk 0).
-Proof. unfold src_rb_check_msg_length. destruct (len >? maxl); reflexivity. Qed.
+Proof. unfold src_rb_check_msg_length. src_robust. Qed.
 
 (* ---- write: record length and required capacity ---- *)
 Lemma src_rb_write_record_len_eq m len : src_rb_write_record_len m len = add32 m len HL.
@@ -90,27 +90,27 @@ Proof. unfold src_rb_write_required_capacity, ralign. rconsts.
 (* ---- claim ---- *)
 Lemma src_rb_claim_available_capacity_eq m cp tl hd :
   src_rb_claim_available_capacity m cp tl hd = avail m cp tl hd.
-Proof. unfold src_rb_claim_available_capacity, avail. srcT_auto. Qed.
+Proof. unfold src_rb_claim_available_capacity, avail. src_robust. Qed.
 
 Lemma src_rb_claim_lacks_eq m cp required tl hd :
   (a <- src_rb_claim_available_capacity m cp tl hd ;; src_rb_claim_lacks m required a) = lacks m cp required tl hd.
-Proof. rewrite src_rb_claim_available_capacity_eq. unfold lacks, src_rb_claim_lacks. reflexivity. Qed.
+Proof. rewrite src_rb_claim_available_capacity_eq. unfold lacks, src_rb_claim_lacks, avail. src_robust. Qed.
 
 Lemma src_rb_claim_lacks_fresh_eq m cp required tl hd :
   src_rb_claim_lacks_fresh m cp required tl hd = lacks m cp required tl hd.
-Proof. unfold src_rb_claim_lacks_fresh, lacks, avail. srcT_auto. Qed.
+Proof. unfold src_rb_claim_lacks_fresh, lacks, avail. src_robust. Qed.
 
 (* mask = (capacity - 1) as i64 never overflows for a capacity above i32::MIN *)
 Lemma src_rb_claim_mask_eq m cp : in_i32 (cp - 1) = true -> src_rb_claim_mask m cp = Ok (cp - 1).
-Proof. intros H. unfold src_rb_claim_mask. srcT_auto. Qed.
+Proof. intros H. unfold src_rb_claim_mask. src_robust. Qed.
 
 Lemma src_rb_claim_tail_index_eq m cp tl : in_i32 (cp - 1) = true ->
   (k <- src_rb_claim_mask m cp ;; src_rb_claim_tail_index m tl k) = Ok (mask_idx cp tl).
-Proof. intros H. rewrite src_rb_claim_mask_eq by assumption. reflexivity. Qed.
+Proof. intros H. rewrite src_rb_claim_mask_eq by assumption. cbn [bind]. unfold src_rb_claim_tail_index, mask_idx. src_robust. Qed.
 
 Lemma src_rb_claim_head_index_eq m cp hd : in_i32 (cp - 1) = true ->
   (k <- src_rb_claim_mask m cp ;; src_rb_claim_head_index m hd k) = Ok (mask_idx cp hd).
-Proof. intros H. rewrite src_rb_claim_mask_eq by assumption. reflexivity. Qed.
+Proof. intros H. rewrite src_rb_claim_mask_eq by assumption. cbn [bind]. unfold src_rb_claim_head_index, mask_idx. src_robust. Qed.
 
 Lemma src_rb_claim_wrap_needed_eq m cp required tl : in_i32 (cp - 1) = true ->
   (k <- src_rb_claim_mask m cp ;; i <- src_rb_claim_tail_index m tl k ;;
@@ -118,52 +118,55 @@ Lemma src_rb_claim_wrap_needed_eq m cp required tl : in_i32 (cp - 1) = true ->
    Ok (if w : bool then Some e else None)) = wrap_needed m cp required tl.
 Proof. intros H. rewrite src_rb_claim_mask_eq by assumption. cbn [bind].
   unfold src_rb_claim_tail_index, src_rb_claim_len_to_buffer_end, src_rb_claim_wrap_needed, wrap_needed, mask_idx.
-  cbn [bind]. apply bind_ext; intros e _. reflexivity. Qed.
+  cbn [bind]. src_robust. Qed.
 
 Lemma src_rb_claim_lacks_front_eq m cp required hd : in_i32 (cp - 1) = true ->
   (k <- src_rb_claim_mask m cp ;; i <- src_rb_claim_head_index m hd k ;; src_rb_claim_lacks_front m required i)
   = Ok (lacks_front cp required hd).
-Proof. intros H. rewrite src_rb_claim_mask_eq by assumption. reflexivity. Qed.
+Proof. intros H. rewrite src_rb_claim_mask_eq by assumption. cbn [bind].
+  unfold src_rb_claim_head_index, src_rb_claim_lacks_front, lacks_front, mask_idx. src_robust. Qed.
 
 Lemma src_rb_claim_new_tail_eq m tl required padding :
   src_rb_claim_new_tail m tl required padding = new_tail m tl required padding.
-Proof. unfold src_rb_claim_new_tail, new_tail. srcT_auto. Qed.
+Proof. unfold src_rb_claim_new_tail, new_tail. src_robust. Qed.
 
 (* ---- read ---- *)
 Lemma src_rb_read_head_index_eq m cp hd : in_i32 (cp - 1) = true ->
   src_rb_read_head_index m cp hd = Ok (mask_idx cp hd).
-Proof. intros H. unfold src_rb_read_head_index, mask_idx. srcT_auto. Qed.
+Proof. intros H. unfold src_rb_read_head_index, mask_idx. src_robust. Qed.
 
 Lemma src_rb_read_contiguous_eq m cp hd : in_i32 (cp - 1) = true ->
   (i <- src_rb_read_head_index m cp hd ;; src_rb_read_contiguous_block_len m cp i) = sub32 m cp (mask_idx cp hd).
-Proof. intros H. rewrite src_rb_read_head_index_eq by assumption. reflexivity. Qed.
+Proof. intros H. rewrite src_rb_read_head_index_eq by assumption. cbn [bind]. unfold src_rb_read_contiguous_block_len. src_robust. Qed.
 
 Lemma src_rb_read_continue_eq m bytes contiguous msgs limit :
   src_rb_read_continue m bytes contiguous msgs limit = Ok ((bytes <? contiguous) && (msgs <? limit)).
-Proof. reflexivity. Qed.
+Proof. unfold src_rb_read_continue. src_robust. Qed.
 
 Lemma src_rb_read_record_index_eq m i bytes : src_rb_read_record_index m i bytes = add32 m i bytes.
-Proof. reflexivity. Qed.
+Proof. unfold src_rb_read_record_index. src_robust. Qed.
 
 Lemma src_rb_read_stop_eq m len : src_rb_read_stop m len = Ok (len <=? 0).
-Proof. reflexivity. Qed.
+Proof. unfold src_rb_read_stop. src_robust. Qed.
 
 Lemma src_rb_read_advance_eq m bytes len :
   src_rb_read_advance m bytes len = (al <- ralign m len ;; add32 m bytes al).
-Proof. unfold src_rb_read_advance. rewrite <- src_rb_write_required_capacity_eq. reflexivity. Qed.
+Proof. unfold src_rb_read_advance. rewrite <- src_rb_write_required_capacity_eq. unfold src_rb_write_required_capacity.
+  apply bind_ext; intros al _. src_robust. Qed.
 
 (* ---- size, unblock ---- *)
 Lemma src_rb_size_eq m st : src_rb_size m (r_tail st) (r_head st) = size m st.
-Proof. unfold src_rb_size, size. srcT_auto. Qed.
+Proof. unfold src_rb_size, size. src_robust. Qed.
 
 Lemma src_rb_unblock_indices_eq m cp hd tl : in_i32 (cp - 1) = true ->
   (k <- src_rb_claim_mask m cp ;; src_rb_unblock_consumer_index m hd k) = Ok (mask_idx cp hd) /\
   (k <- src_rb_claim_mask m cp ;; src_rb_unblock_producer_index m tl k) = Ok (mask_idx cp tl).
-Proof. intros H. rewrite !src_rb_claim_mask_eq by assumption. split; reflexivity. Qed.
+Proof. intros H. rewrite !src_rb_claim_mask_eq by assumption. cbn [bind].
+  unfold src_rb_unblock_consumer_index, src_rb_unblock_producer_index, mask_idx. split; src_robust. Qed.
 
 Lemma src_rb_unblock_limit_eq m cp pi ci :
   src_rb_unblock_limit m cp pi ci = Ok (if pi >? ci then pi else cp).
-Proof. unfold src_rb_unblock_limit. destruct (pi >? ci); reflexivity. Qed.
+Proof. unfold src_rb_unblock_limit. src_robust. Qed.
 
 (* ---- is_power_of_two, check_capacity, new ---- *)
 (* x & (!x + 1) = x & -x isolates the lowest set bit *)
